@@ -121,6 +121,44 @@ func cmdC07(args []string) error {
 		line["offered"] = total + 1
 		tw.emit(line)
 	}
+	sharedStage := func() {
+		// ---- the same key bytes, usage and data under every checksum type whose keys have that length, in both orders, the key
+		// held in one buffer that is overwritten for every round (a checksum is a function of its arguments: nothing the library
+		// remembers about an earlier call - for another type, or for other bytes in the same slice - may change a later one)
+		rounds := 4
+		if *tier == "thorough" {
+			rounds = 40
+		}
+		for _, grp := range [][]int32{{15, 19, -138}, {16, 20}, {12}} {
+			buf := make([]byte, 0, 32)
+			for round := 0; round < rounds; round++ {
+				order := append([]int32{}, grp...)
+				if round%2 == 1 {
+					for i, j := 0, len(order)-1; i < j; i, j = i+1, j-1 {
+						order[i], order[j] = order[j], order[i]
+					}
+				}
+				e0, err := crypto.GetChksumEtype(order[0])
+				if err != nil {
+					continue
+				}
+				k := randKey(r, e0.GetETypeID())
+				buf = append(buf[:0], k...)
+				u := usageSet[(int(*seed)+round/2)%len(usageSet)] // two rounds in a row share the usage: only the key bytes in the buffer change
+				data := rbytes(r, []int{0, 1, 64, 200}[round%4])
+				for rep := 0; rep < 2; rep++ {
+					for _, ct := range order {
+						e, err := crypto.GetChksumEtype(ct)
+						if err != nil {
+							continue
+						}
+						cell(ct, e, buf, data, u)
+					}
+				}
+			}
+		}
+	}
+	sharedStage() // first of all (whatever the library remembers, it remembers from the start of a process), and again after the grid
 	for _, ct := range cksumTypes {
 		e, err := crypto.GetChksumEtype(ct)
 		if err != nil {
@@ -137,40 +175,6 @@ func cmdC07(args []string) error {
 			}
 		}
 	}
-	// ---- the same key bytes, usage and data under every checksum type whose keys have that length, in both orders, the key
-	// held in one buffer that is overwritten for every round (a checksum is a function of its arguments: nothing the library
-	// remembers about an earlier call - for another type, or for other bytes in the same slice - may change a later one)
-	rounds := 4
-	if *tier == "thorough" {
-		rounds = 40
-	}
-	for _, grp := range [][]int32{{15, 19, -138}, {16, 20}, {12}} {
-		buf := make([]byte, 0, 32)
-		for round := 0; round < rounds; round++ {
-			order := append([]int32{}, grp...)
-			if round%2 == 1 {
-				for i, j := 0, len(order)-1; i < j; i, j = i+1, j-1 {
-					order[i], order[j] = order[j], order[i]
-				}
-			}
-			e0, err := crypto.GetChksumEtype(order[0])
-			if err != nil {
-				continue
-			}
-			k := randKey(r, e0.GetETypeID())
-			buf = append(buf[:0], k...)
-			u := usageSet[(int(*seed)+round/2)%len(usageSet)] // two rounds in a row share the usage: only the key bytes in the buffer change
-			data := rbytes(r, []int{0, 1, 64, 200}[round%4])
-			for rep := 0; rep < 2; rep++ {
-				for _, ct := range order {
-					e, err := crypto.GetChksumEtype(ct)
-					if err != nil {
-						continue
-					}
-					cell(ct, e, buf, data, u)
-				}
-			}
-		}
-	}
+	sharedStage()
 	return nil
 }
